@@ -28,3 +28,23 @@ package socks5
 //@     invariant -1 <= rangeindex__2 && rangeindex__2 < len(s.config.AuthOpts.IngressCredentials)
 //@
 //@ global HandshakeErrors: v != nil
+//@
+//@ global wellKnownIPv4LocalDomainNames: len(v) == 4 && v[0] == "localhost" && v[1] == "localhost4" && v[2] == "localhost.localdomain" && v[3] == "localhost4.localdomain4"
+//@ global wellKnownIPv6LocalDomainNames: len(v) == 4 && v[0] == "localhost6" && v[1] == "ip6-localhost" && v[2] == "ip6-loopback" && v[3] == "localhost6.localdomain6"
+//@
+//@ func (s *Server) rejectPrivateAndLoopbackIPAction(ctx context.Context, in egress.Input, req *model.Request) (a egress.Action)
+//@   property C12
+//@   mode int
+//@   requires s != nil && s.config != nil && req != nil
+//@   ensures dstLoopbackLike(req.DstAddr) && !userMayLoopback(s, in) ==> a.Action == 2
+//@   ensures dstPrivate(req.DstAddr) && !userMayPrivate(s, in) && !(dstLoopbackLike(req.DstAddr) && userMayLoopback(s, in)) ==> a.Action == 2
+//@   ensures !dstLoopbackLike(req.DstAddr) && !dstPrivate(req.DstAddr) ==> a.Action == 1
+//@   ensures a.Action == 1 || a.Action == 2
+//@   loop 1:
+//@     modifies nothing
+//@     invariant -1 <= rangeindex && rangeindex < len(wellKnownIPv4LocalDomainNames)
+//@     invariant isWellKnownIPv4LocalDomainName <==> exists(j, 0, rangeindex + 1, wellKnownIPv4LocalDomainNames[j] == domainName)
+//@   loop 2:
+//@     modifies nothing
+//@     invariant -1 <= rangeindex__2 && rangeindex__2 < len(wellKnownIPv6LocalDomainNames)
+//@     invariant isWellKnownIPv6LocalDomainName <==> exists(j, 0, rangeindex__2 + 1, wellKnownIPv6LocalDomainNames[j] == domainName)
